@@ -470,7 +470,16 @@ template <class V> static FX_NOINLINE void g_complex(fx::Ctx& fx) {
                 long double er = (ar_ * br + ai * bi) / den, ei = (ai * br - ar_ * bi) / den, mod = sqrtl(er * er + ei * ei);
                 long double dr = fabsl((long double)o[i].real() - er), di = fabsl((long double)o[i].imag() - ei);
                 if (!(dr <= 16 * u * mod + 1e-300L) || !(di <= 16 * u * mod + 1e-300L)) { ok = false; d = "v/v lane " + std::to_string(i) + " got " + fx::vstr(o[i]); break; } }
-            fx.verdict(ok, fx::hash_bytes(a, sizeof a) ^ fx::hash_bytes(b, sizeof b), true, d); } }
+            fx.verdict(ok, fx::hash_bytes(a, sizeof a) ^ fx::hash_bytes(b, sizeof b), true, d);
+            // the in-place spellings: v /= v and v /= z (complex number)
+            for (int inplace = 0; inplace < 2; ++inplace) {
+                V r2 = va; if (inplace == 0) r2 /= vb; else r2 /= b[0]; getl(r2, o); bool ok2 = true; std::string d2;
+                for (size_t i = 0; i < N; ++i) { const Z dv = inplace == 0 ? b[i] : b[0];
+                    long double br = dv.real(), bi = dv.imag(), ar_ = a[i].real(), ai = a[i].imag(), den = br * br + bi * bi;
+                    long double er = (ar_ * br + ai * bi) / den, ei = (ai * br - ar_ * bi) / den, mod = sqrtl(er * er + ei * ei);
+                    long double dr = fabsl((long double)o[i].real() - er), di = fabsl((long double)o[i].imag() - ei);
+                    if (!(dr <= 16 * u * mod + 1e-300L) || !(di <= 16 * u * mod + 1e-300L)) { ok2 = false; d2 = std::string(inplace == 0 ? "v/=v" : "v/=z") + " lane " + std::to_string(i) + " got " + fx::vstr(o[i]); break; } }
+                fx.verdict(ok2, fx::hash_bytes(a, sizeof a) ^ fx::hash_bytes(b, sizeof b) ^ (0x77u + inplace), true, d2); } } }
         // vertical real-valued results and horizontals
         { using VR = decltype(va.real()); R ro[N], re_[N];
           { VR r = va.real(); r.store(ro, false); for (size_t i = 0; i < N; ++i) re_[i] = a[i].real(); fx.eq(ro, re_, N, (const R*)nullptr, "real()"); }
